@@ -69,7 +69,7 @@ func Boundary(b string) []*ty.Val {
 		ints(16)
 	case "int32", "rune":
 		ints(32)
-		out = append(out, iv(0x10FFFF), iv(0xD800), iv(0xFFFD), iv('\n'))
+		out = append(out, iv(0x10FFFF), iv(0x110000), iv(0xD800), iv(0xDFFF), iv(0xFFFD), iv('\n'), iv('\''), iv('\\'))
 	case "uint", "uint64", "uintptr":
 		uints(64)
 	case "uint8", "byte":
